@@ -108,7 +108,10 @@ static std::unique_ptr<IC> make(const Cfg& g)
     std::exit(2);
 }
 
-static bool needs_twin(const std::string& k) { return k == "tlru" || k == "utlru" || k == "utmap" || k == "utset"; }
+/// c19 scripts (no-effect calls spliced into one of two instances): sweep a replayed twin for *every* kind, so that the
+/// harness's own peek lookups cannot mask (or cause) a difference between the two instances
+static bool g_twin_all = false;
+static bool needs_twin(const std::string& k) { return g_twin_all || k == "tlru" || k == "utlru" || k == "utmap" || k == "utset"; }
 
 static std::string show_opt(const std::optional<uint64_t>& o) { return o.has_value() ? std::to_string(*o) : "-"; }
 
@@ -236,6 +239,7 @@ int main(int argc, char** argv)
             cfg.den   = u64(t[6]);
             cfg.nkeys = u64(t[7]);
             std::string mode = t.size() > 8 ? t[8] : "single";
+            g_twin_all       = (mode == "c19");
             g_seed    = 12345;
             for (size_t i = 9; i < t.size(); ++i)
             {
